@@ -10,7 +10,7 @@ use crate::check::Known;
 pub static HARVEST: OnceLock<Vec<String>> = OnceLock::new();
 use crate::spec::*;
 
-fn erase_lifetimes(s: &str) -> String {
+pub fn erase_lifetimes(s: &str) -> String {
     let mut out = String::new();
     let mut it = s.chars().peekable();
     while let Some(c) = it.next() {
@@ -162,7 +162,7 @@ pub fn failure_matches(sig: &str, msg: &str) -> bool {
         "copy_clone_enum_with_clone_method_and_type_parameter" => msg.contains("E0204"),
         "field_types_differ_only_in_lifetime" => msg.contains("E0283") || msg.contains("E0204") || msg.contains("E0308") || msg.contains("lifetime may not live long enough"),
         "debug_unsized_tail" => msg.contains("E0277"),
-        "const_parameter_named_like_a_generated_binding" => msg.contains("E0308") || msg.contains("E0530") || msg.contains("E0005") || msg.contains("E0423") || msg.contains("E0532"),
+        "const_parameter_named_like_a_generated_binding" => msg.contains("E0308") || msg.contains("E0158") || msg.contains("E0530") || msg.contains("E0005") || msg.contains("E0423") || msg.contains("E0532"),
         "user_item_named_like_an_internal_helper_type" => msg.contains("does not compile"),
         "union_hash_without_leading_unsafe" => msg.contains("panic"),
         "copy_attribute_below_type_level_while_clone_is_educed" => msg.contains("accepted"),
